@@ -163,7 +163,8 @@ func racePendingTrial(seed int64) {
 // the mDNS manager used the way hub, application and provider use it at the same time
 func raceMdnsTrial(seed int64) {
 	m := mdns.NewMDNS("ski0", "brand", "model", "type", "serial", nil, "id", "svc", 4711, nil, mdns.MdnsProviderSelectionGoZeroConfOnly)
-	m.VerifSetProvider(&fakeProvider{}, nullReport{})
+	// the receiver of the reports treats what it gets as its own, as the hub does (it sorts an entry's addresses in place)
+	m.VerifSetProvider(&fakeProvider{}, scribbleSink{})
 	var wg sync.WaitGroup
 	run := func(f func(r *rand.Rand, i int)) {
 		wg.Add(1)
